@@ -541,3 +541,14 @@ package sam
 //@   ensures[C07] @invA (text == nil && result1 == nil) ==> refsA(result0)
 //@   ensures[C07] @invB (text == nil && result1 == nil) ==> refsB(result0)
 //@   ensures[C07] @invC (text == nil && result1 == nil) ==> refsC(result0)
+
+// Seq accessors (C11): on a sequence whose packed bytes have the announced
+// length (what bam.Reader.Read and NewSeq deliver) Expand and At stay inside
+// the packed bytes and the 16 letter table.
+//@ table n16TableRev
+//@ func Seq.Expand
+//@   mode int
+//@   props C11
+//@   decoder
+//@   requires 0 <= ns.Length && len(ns.Seq) == div(ns.Length + 1, 2)
+//@   ensures[C11] @len len(result) == ns.Length
